@@ -310,7 +310,19 @@ class C15(Check):
         # the schedule-record clause: timetables with repeated states, wrap-around, zero durations
         sch = [S.SCHED([(1, 'a'), (0.5, 'a'), (1, 'b')], True, [('o1', 'default')], K=K),
                S.SCHED([(1, 'a')], True, [], K=K), S.SCHED([(0.5, 'a'), (0, 'b'), (0.5, 'a')], False, [], K=K), S.SCHED_BLOCK(K)]
-        return jobs + _line_jobs(sch, ['data', 'schedule'], tier, trace=True)
+        jobs += _line_jobs(sch, ['data', 'schedule'], tier, trace=True)
+        # the resource clause on the component worlds of C09 / C10 (every change of a pool recorded, stamped now, last record =
+        # pool), including a resource defined for the first time during the run
+        from .comp import split_first
+        from .compchecks import RM_ADDS, RM_REQUESTS, RM_RELEASES, BIG
+        D = 4 if tier == 'quick' else 5
+        jobs += split_first('rm', f'RM-C15[D{D}]', {'depth': D, 'adds': RM_ADDS, 'requests': RM_REQUESTS, 'releases': RM_RELEASES,
+                                                    'records': True}, e2=5, max_states=3000000, max_seconds=3000)
+        jobs += split_first('rmwait', f'RMWAIT-C15[D{D}]', {'depth': D, 'adds': [['n', 1], ['n', -1], ['a', 1], ['a', -1]],
+                                                            'requests': [{'n': 1}, {'a': 2}, {'a': 1, 'n': 1}], 'pools': [['a', 2]],
+                                                            'kinds': ['noop', 'take', 'give'], 'records': True},
+                            e2=20, max_states=3000000, max_seconds=3000)
+        return jobs
 
 
 @check
